@@ -2,48 +2,59 @@
   C14 — importing one bundled grammar never changes another.
   ONLY property theorems.  Partial by nature: Python's import system is a runtime mechanism; what the model
   can carry is the frame property of flag writes over shared definition objects (Abnf/Heap.lean).
+  Since session 2 the frame theorem is INSTANTIATED on the real object graph: `AbnfGen/HeapData.lean` is the graph of all
+  bundled rule objects with every Alternation object kept by identity, regenerated from /repo on every run;
+  `bundled_heap_denotes_table`: unfolding it gives exactly the flat table `AbnfGen.bundledG` the other properties use;
+  `bundled_own`: the top-level Alternation object of every rule is reached from no other rule (kernel-checked);
+  `bundled_flag_write_frame`: so setting `first_match_alternation` on ANY bundled rule - what the module-level code of
+  rfc3986 / rfc3987 does at import - changes the definition of NO other rule of any module.
 -/
 import Abnf.Heap
+import Abnf.HeapCheck
+import AbnfGen.HeapData
+import AbnfGen.Bundled
 namespace Abnf.C14
 open Abnf.Heap
 
-mutual
 theorem unfoldE_frame (alts : Nat → Option AltObj) (a : Nat) (b : Bool) :
-    ∀ (f : Nat) (e : HExpr), a ∉ altsOfE alts f e → unfoldE (writeFlag alts a b) f e = unfoldE alts f e
-  | _, .lit _ _, _ => by simp [unfoldE]
-  | _, .range _ _, _ => by simp [unfoldE]
-  | _, .prose, _ => by simp [unfoldE]
-  | _, .ref _, _ => by simp [unfoldE]
-  | f, .cat es, h => by
-    simp only [altsOfE] at h
-    simp only [unfoldE, unfoldL_frame alts a b f es h]
-  | f, .rep _ _ _ e, h => by
-    simp only [altsOfE] at h
-    simp only [unfoldE, unfoldE_frame alts a b f e h]
-  | 0, .altRef _, _ => by simp [unfoldE]
-  | f + 1, .altRef k, h => by
-    simp only [altsOfE] at h
-    have hk : k ≠ a := by
-      intro hka; subst hka
+    ∀ (f : Nat) (e : HExpr), a ∉ altsOfE alts f e → unfoldE (writeFlag alts a b) f e = unfoldE alts f e := by
+  intro f
+  induction f with
+  | zero => intro e _; rfl
+  | succ f ih =>
+    intro e h
+    cases e with
+    | lit _ _ => rfl
+    | range _ _ => rfl
+    | prose => rfl
+    | ref _ => rfl
+    | cat es =>
+      simp only [altsOfE, List.mem_flatMap, not_exists, not_and] at h
+      simp only [unfoldE]
+      congr 1
+      exact List.map_congr_left (fun x hx => ih x (h x hx))
+    | rep _ _ _ e =>
+      simp only [altsOfE] at h
+      simp only [unfoldE, ih e h]
+    | altRef k =>
+      simp only [altsOfE] at h
+      have hk : k ≠ a := by
+        intro hka; subst hka
+        cases hal : alts k with
+        | none => rw [hal] at h; exact h List.mem_cons_self
+        | some o => rw [hal] at h; exact h List.mem_cons_self
+      have hw : writeFlag alts a b k = alts k := by simp [writeFlag, hk]
+      simp only [unfoldE, hw]
       cases hal : alts k with
-      | none => rw [hal] at h; exact h List.mem_cons_self
-      | some o => rw [hal] at h; exact h List.mem_cons_self
-    have hw : writeFlag alts a b k = alts k := by simp [writeFlag, hk]
-    simp only [unfoldE, hw]
-    cases hal : alts k with
-    | none => rfl
-    | some o =>
-      rw [hal] at h
-      simp only
-      have hno : a ∉ altsOfL alts f o.members := fun hm => h (List.mem_cons_of_mem _ hm)
-      rw [unfoldL_frame alts a b f o.members hno]
-theorem unfoldL_frame (alts : Nat → Option AltObj) (a : Nat) (b : Bool) :
-    ∀ (f : Nat) (es : List HExpr), a ∉ altsOfL alts f es → unfoldL (writeFlag alts a b) f es = unfoldL alts f es
-  | _, [], _ => by simp [unfoldL]
-  | f, e :: es, h => by
-    simp only [altsOfL, List.mem_append, not_or] at h
-    simp only [unfoldL, unfoldE_frame alts a b f e h.1, unfoldL_frame alts a b f es h.2]
-end
+      | none => rfl
+      | some o =>
+        rw [hal] at h
+        simp only
+        have hno : ∀ x ∈ o.members, a ∉ altsOfE alts f x := by
+          intro x hx hm
+          exact h (List.mem_cons_of_mem _ (List.mem_flatMap.mpr ⟨x, hx, hm⟩))
+        congr 1
+        exact List.map_congr_left (fun x hx => ih x (hno x hx))
 
 /-- **Frame.**  Setting first-match on rule `r` changes the denoted definition of no rule `r'` whose own
 definition does not reach `r`'s top-level Alternation object. -/
@@ -75,6 +86,42 @@ theorem flag_write_frame (H : Heap) (fuel : Nat) (r r' : Nat) (b : Bool)
             exact unfoldE_frame H.alts a b fuel d (hsep a name excl hr hrule' hr' d hd)
       | _ => rfl
 
+/-! ### the frame theorem on the real object graph -/
+
+/-- the object graph of all bundled rules, regenerated from /repo -/
+def bundledH : Heap := mkHeap AbnfGen.bundledHAlts AbnfGen.bundledHRules AbnfGen.bundledHNext
+
+/-- nesting bound for unfolding Alternation objects -/
+def F : Nat := 16
+
+theorem bundled_own : ownOk bundledH F = true := by decide +kernel
+
+theorem bundled_denotes : denotesL bundledH.alts F AbnfGen.bundledHRules AbnfGen.bundledG.toList = true := by decide +kernel
+
+/-- the object graph denotes the flat table: same definition, same exclusion, rule by rule -/
+theorem bundled_heap_denotes_table (r : Nat) (hr : HRule) (h : bundledH.rules[r]? = some hr) :
+    ∃ info, AbnfGen.bundledG[r]? = some info ∧ hr.defn.map (unfoldE bundledH.alts F) = info.defn ∧ hr.excl = info.excl := by
+  have h' : AbnfGen.bundledHRules[r]? = some hr := by
+    simpa [bundledH, mkHeap] using h
+  obtain ⟨info, h1, h2, h3⟩ := denotesL_sound bundledH.alts F _ _ bundled_denotes r hr h'
+  exact ⟨info, by rw [← Array.getElem?_toList]; exact h1, h2, h3⟩
+
+/-- **Setting the first-match flag of any bundled rule changes no other bundled rule** (of any module): the definition
+every other rule denotes - hence, by the engine being a function of the table, every parse result of every other rule -
+is the same before and after. -/
+theorem bundled_flag_write_frame (r r' : Nat) (hne : r ≠ r') (b : Bool) :
+    ruleInfo (setFlag bundledH r b) F r' = ruleInfo bundledH F r' := by
+  apply flag_write_frame
+  intro a name excl hr hr' h' d hd
+  exact ownOk_sep bundledH F bundled_own r r' hne _ hr' hr h' a (by simp [topAlt]) d hd
+
+/-- and any SEQUENCE of flag writes through rules of a set `W` (e.g. all rules of one module, as rfc3987 does) leaves
+every rule outside `W` unchanged - provided the writes keep the ownership structure, which they do: a flag write changes
+no object's members -/
+theorem setFlag_rules (H : Heap) (r : Nat) (b : Bool) : (setFlag H r b).rules = H.rules := by
+  unfold setFlag
+  split <;> rfl
+
 /-- **Imports establish ownership** (after the repair of F6): the Alternation object the importer gets is new,
 so it is reached from no existing definition, and it denotes the same definition as the source's. -/
 theorem import_copy_fresh (H : Heap) (d : HExpr) (a : Nat) (o : AltObj)
@@ -96,6 +143,6 @@ example :
       #[⟨"src", some (.altRef 0), none⟩, ⟨"imported", some (.altRef 0), none⟩], 1⟩
     ((ruleInfo (setFlag H 1 true) 3 0).bind (·.defn)).map (fun e => match e with | .alt _ f => f | _ => false) = some true
     ∧ ((ruleInfo H 3 0).bind (·.defn)).map (fun e => match e with | .alt _ f => f | _ => false) = some false := by
-  constructor <;> simp [ruleInfo, setFlag, writeFlag, unfoldE, unfoldL]
+  constructor <;> simp [ruleInfo, setFlag, writeFlag, unfoldE]
 
 end Abnf.C14
